@@ -504,6 +504,52 @@ def check_programs(h: Harness):
             h.seen(f"programs:{desc}:{kind}", nontrivial=made > 20)
 
 
+def check_same_named_rules(h: Harness):
+    """two DIFFERENT abstract types of one grammar that carry the same class name (sub-languages kept in separate modules or
+    namespaces, e.g. numbers.Literal and strings.Literal): each rule is normalised on its own -- its productions sum to 1 in the
+    declared ratios -- on the first extraction and on every later one"""
+    from geneticengine.grammar.grammar import extract_grammar
+    cases = [((1, 3), (2, 2, 4)), ((1, 1), (1, 3)), ((0, 2), (1, 1, 6)), ((4, 4), (1,))]
+    for ci, (wa, wb) in enumerate(cases):
+        root = type(f"SExpr{ci}", (ABC,), {})
+        rules = []
+        for tag, ws in (("numbers", wa), ("strings", wb)):
+            rule = abstract(type("Literal", (root,), {"__module__": f"sublang.{tag}"}))
+            weight(2 if tag == "numbers" else 6)(rule)
+            kids = []
+            for j, w_ in enumerate(ws):
+                kid = dataclasses.make_dataclass(f"{tag.capitalize()}Lit{j}", [("x", int)], bases=(rule,))
+                weight(w_)(kid)
+                kids.append(kid)
+            rules.append((rule, kids, ws))
+        considered = [k for _, kids, _ in rules for k in kids] + [r for r, _, _ in rules]
+        desc = f"a grammar with two abstract types both named Literal, productions weighted {wa} and {wb}"
+        for n_ext in (1, 2, 3):
+            try:
+                g = extract_grammar(considered, root)
+            except Exception as e:  # noqa: BLE001
+                h.fail("extract_grammar", "raises", f"{desc}: extraction #{n_ext} raised {type(e).__name__}: {e}", [ci, n_ext])
+                break
+            w = g.get_weights()
+            h.count("same-named-rules:extractions")
+            h.seen(f"same-named:{ci}:{n_ext}", nontrivial=True)
+            bad = None
+            for rule, kids, ws in rules:
+                got = [w[k] for k in kids]
+                want = [x / sum(ws) for x in ws]
+                if any(abs(a - b_) > 1e-9 for a, b_ in zip(got, want)):
+                    bad = (rule, got, want)
+                    break
+            top = [w[r] for r, _, _ in rules]
+            if bad is None and any(abs(a - b_) > 1e-9 for a, b_ in zip(top, [0.25, 0.75])):
+                bad = (root, top, [0.25, 0.75])
+            if bad:
+                h.fail("extract_grammar", "weights-not-normalised",
+                       f"{desc}: after extraction #{n_ext} the productions of {bad[0].__module__}.{bad[0].__name__} have the weights {bad[1]}, "
+                       f"the declaration normalises to {bad[2]}", [ci, n_ext])
+                break
+
+
 def check_redeclaration(h: Harness):
     """weights are declared with a decorator on the class; a user who declares NEW weights on classes that a grammar was already
     extracted from (a sweep over one production's weight, switching a production off) and extracts again gets the grammar of
@@ -659,6 +705,7 @@ def run(h: Harness):
 
     check_programs(h)
     check_redeclaration(h)
+    check_same_named_rules(h)
     check_multiple_inheritance(h)
     check_nested_start(h)
     # -- corpus
